@@ -278,7 +278,42 @@ func ruleGroupSpawn(c *Ctx, r *R) {
 				}
 			})
 		}
-		r.ok(stopIn != nil && waitIn != nil && stopIn.Block() == waitIn.Block() && idxIn(stopIn) < idxIn(waitIn), "xsync.Group.StopAndWait|stop-then-wait", sw.Pos(), "StopAndWait must Stop (cancel under the write lock) and then wg.Wait()")
+		direct := stopIn != nil && waitIn != nil && stopIn.Block() == waitIn.Block() && idxIn(stopIn) < idxIn(waitIn)
+		if !direct {
+			// both steps live in a helper shared with Stop (g.shutdown(true)): in the deep view a cancel under the write lock
+			// is followed by the Wait (that every path does so is C17.barrier's typestate)
+			deep := deepInstrs(sw, 2)
+			for i, di := range deep {
+				call, ok := di.in.(*ssa.Call)
+				if !ok {
+					continue
+				}
+				v := argOf(call.Call.Value, di.calls)
+				if ct, isCT := v.(*ssa.ChangeType); isCT {
+					v = ct.X
+				}
+				if !strings.HasSuffix(path(v), ".cancel") {
+					continue
+				}
+				underW := false
+				for lk, mode := range deepLocks(sw, di) {
+					if isGroupMu(lk) && mode == 'W' {
+						underW = true
+					}
+				}
+				if !underW {
+					continue
+				}
+				for _, dj := range deep[i+1:] {
+					if c2, ok := dj.in.(*ssa.Call); ok {
+						if cal := c2.Call.StaticCallee(); cal != nil && fname(cal) == "Wait" && cal.Signature.Recv() != nil && isNamedType(cal.Signature.Recv().Type(), "sync", "WaitGroup") {
+							direct = true
+						}
+					}
+				}
+			}
+		}
+		r.ok(direct, "xsync.Group.StopAndWait|stop-then-wait", sw.Pos(), "StopAndWait must Stop (cancel under the write lock) and then wg.Wait()")
 	}
 }
 
